@@ -15,11 +15,14 @@ def run(pid, m, tier="quick"):
         print("refusing: /repo has uncommitted changes"); sys.exit(2)
     path = os.path.join("/repo", m["file"])
     s = open(path).read()
-    cnt = s.count(m["old"])
-    if cnt != m.get("count", 1):
-        print(f"[{m['name']}] pattern occurs {cnt} times, expected {m.get('count',1)}"); return None
+    # one edit (old/new/count) or several ("edits": [{old,new,count?}, ...]) in the same file
+    for e in m.get("edits", [m]):
+        cnt = s.count(e["old"])
+        if cnt != e.get("count", 1):
+            print(f"[{m['name']}] pattern occurs {cnt} times, expected {e.get('count',1)}: {e['old'][:60]!r}"); return None
+        s = s.replace(e["old"], e["new"])
     try:
-        open(path, "w").write(s.replace(m["old"], m["new"]))
+        open(path, "w").write(s)
         t0 = time.time()
         r = subprocess.run([os.path.join(ROOT, "check"), pid, tier] + (["--sub", m["sub"]] if m.get("sub") else []), capture_output=True, text=True, env=dict(os.environ, HV_OUT_ROOT=OUT))
         dt = time.time() - t0
